@@ -67,7 +67,9 @@ def c07_case(draw):
                 text = f"{m} = 7\n" + text
         fixed.append(text)
     files = fixed
-    outputs = draw(st.lists(st.sampled_from(["o-bin", "o-raw", "o-sub", "implicit", "make_bin", "make_raw-path", "make_wav", "make_bin-path"]), max_size=3, unique=True))
+    outputs = draw(st.lists(st.sampled_from(["o-bin", "o-raw", "o-sub", "implicit", "make_bin", "make_raw-path", "make_wav", "make_bin-path", "o-stdout"]), max_size=3, unique=True))
+    if "o-stdout" in outputs:
+        outputs = [o for o in outputs if o not in ("o-bin", "o-raw", "o-sub")]
     if "o-raw" in outputs and "o-bin" in outputs:
         outputs.remove("o-raw")
     if "o-sub" in outputs:
@@ -113,6 +115,8 @@ def build(c):
         elif o == "o-sub":
             argv += ["-o", "out/res.raw"]
             expected["out/res.raw"] = "raw"
+        elif o == "o-stdout":
+            argv += ["-o", "-"]        # the image goes to standard output (diagnostics of the graphical format go to stderr)
         elif o == "implicit":
             argv.append("--implicit-bin")
         elif o == "make_bin":
@@ -166,6 +170,8 @@ def judge(c):
             new = {k for k in res.after if k not in res.before and not k.endswith("/")}
             changed = {k for k in res.after if k in res.before and res.after[k] != res.before[k]}
             contents = {k: sc.read(k) for k in new}
+            if "o-stdout" in c["outputs"] and conf["format"] == "graphical":
+                contents["<stdout>"] = res.stdout
             tag = f"format={conf['format']} -W {conf['W']}"
             if res.internal_error():
                 return [("internal-error", f"{tag}: internal compiler error\n{res.stderr.decode('utf-8', 'replace')[-600:]}\n--- p0.mac\n{tree['p0.mac']}")], info
@@ -208,17 +214,22 @@ def judge(c):
             return [("config-changes-status", f"exit status {s0} with {c0} but {s} with {conf}\n--- p0.mac\n{tree['p0.mac']}")], info
         if n != n0:
             return [("config-changes-files", f"files {sorted(n0)} with {c0} but {sorted(n)} with {conf}")], info
+        if "<stdout>" in b0 and "<stdout>" in b and s0 == 0 and b0["<stdout>"] != b["<stdout>"]:
+            return [("config-changes-stdout-image", f"the image written to standard output differs between {c0} ({b0['<stdout>'][:24].hex()}...) and {conf} ({b['<stdout>'][:24].hex()}...)\n--- p0.mac\n{tree['p0.mac']}")], info
         for k in n0:
             if b0[k] != b[k] and not k.endswith(".lst"):
                 return [("config-changes-bytes", f"{k} differs between {c0} and {conf}")], info
             if k.endswith(".lst") and normalize_lst(b0[k]) != normalize_lst(b[k]):
                 return [("config-changes-listing", f"{k} differs between {c0} and {conf}")], info
     # content of the outputs against an in-process assembly of the same sources
-    if s0 == 0 and expected:
+    if s0 == 0 and (expected or "o-stdout" in c["outputs"]):
         with driver.Scratch(tree) as sc:
             files = [(os.path.join(sc.path, m), tree[m]) for m in mains]
             ref = driver.assemble(files)
         if ref.kind == "ok":
+            for conf, s_, n_, b_ in results:
+                if "<stdout>" in b_ and b_["<stdout>"] != ref.code:
+                    return [("content:stdout-image", f"-o - with {conf}: standard output holds {b_['<stdout>'][:24].hex()}... ({len(b_['<stdout>'])} bytes), the image is {ref.code[:24].hex()}... ({len(ref.code)} bytes)")], info
             for k, fmt in expected.items():
                 name = b"TAPE".ljust(16) if fmt == "bk_wav" else None
                 for sig, msg in c13.judge_blob(fmt, b0[k], ref.base, ref.code, name):
